@@ -416,7 +416,10 @@ func (m *Macaroon) verify(k SigningKey, dms []*Macaroon, parentTokenBindingIds [
 	for _, vp := range dischargesToVerify {
 		var (
 			discharged bool
-			dErr       error
+
+			// joined once, below: joining inside the loop nests the errors,
+			// and rendering a nest copies the earlier texts over and over
+			dErrs []error
 		)
 
 	dmLoop:
@@ -435,12 +438,12 @@ func (m *Macaroon) verify(k SigningKey, dms []*Macaroon, parentTokenBindingIds [
 
 				var ticket wireTicket
 				if err = unmarshal(ticketr, &ticket); err != nil {
-					dErr = errors.Join(dErr, fmt.Errorf("bad ticket in discharge: %w", err))
+					dErrs = append(dErrs, fmt.Errorf("bad ticket in discharge: %w", err))
 					continue dmLoop
 				}
 
 				if subtle.ConstantTimeCompare(vp.k, ticket.DischargeKey) != 1 {
-					dErr = errors.Join(dErr, errors.New("discharge key from ticket/VerifierKey mismatch"))
+					dErrs = append(dErrs, errors.New("discharge key from ticket/VerifierKey mismatch"))
 					continue dmLoop
 				}
 
@@ -456,7 +459,7 @@ func (m *Macaroon) verify(k SigningKey, dms []*Macaroon, parentTokenBindingIds [
 				trusted3Ps,
 			)
 			if err != nil {
-				dErr = errors.Join(dErr, fmt.Errorf("macaroon verify: verify discharge: %w", err))
+				dErrs = append(dErrs, fmt.Errorf("macaroon verify: verify discharge: %w", err))
 				continue dmLoop
 			}
 
@@ -466,7 +469,7 @@ func (m *Macaroon) verify(k SigningKey, dms []*Macaroon, parentTokenBindingIds [
 		}
 
 		if !discharged {
-			return nil, dErr
+			return nil, errors.Join(dErrs...)
 		}
 	}
 
